@@ -60,7 +60,11 @@ def tlc_jobs(ctx, acc):
     # the ideal design (counters kept until the group goes; Dec only for groups that count): everything holds
     mc("mc-ideal", INVS)
     mc("mc-ideal-2topics", INVS, Topics='{"t1", "t2"}', Groups='{"g1"}')
-    mc("mc-ideal-send", INVS, Groups='{"g1"}', Parts="{0, 1}", Acts=ALL_ACTS)
+    if th:
+        mc("mc-ideal-send", INVS, Groups='{"g1"}', Parts="{0, 1}", Acts=ALL_ACTS)
+    else:
+        mc("mc-ideal-send", INVS, Groups='{"g1"}', Parts="{0}", Acts=ALL_ACTS)
+        mc("mc-ideal-send-noclose", INVS, Groups='{"g1"}', Parts="{0, 1}", Acts='{"pub", "rpc", "hb", "mesh", "gossip", "req"}')
     # reset on close without the stale decrement: only the strict reading of c fails (X04-F2)
     mc("mc-epoch", [i for i in INVS if i != "P_X04_cStrict"], ResetOnClose=True)
     mc("mc-epoch-strict", ["P_X04_cStrict"], ResetOnClose=True)
@@ -73,12 +77,7 @@ def tlc_jobs(ctx, acc):
         mc("mc-ideal-3groups", INVS, timeout=1500, CTtl=2, Groups='{"g1", "g2", "g3"}')
         mc("mc-asfound-send", ["TypeOK", "P_X04_a", "P_X04_d", "P_X04_e", "P_X04_f"], timeout=1500, ResetOnClose=True, StaleDec=True,
            Groups='{"g1"}', Parts="{0, 1}", Acts=ALL_ACTS, Peers='{"p1", "p2", "p3"}', CLimT=1)
-    if os.path.exists(os.path.join(vlib.SPEC, FAMILY, "MCPartialNode.cfg")):
-        jobs["mc-node"] = dict(module="PartialNode", cfg="MCPartialNode.cfg", timeout=900)
-    for dev, prop in NODE_DEVS:
-        jobs["mc-node-dev-" + dev] = dict(module="PartialNode", timeout=600,
-                                          cfg=open(os.path.join(vlib.SPEC, FAMILY, "MCPartialNode.cfg")).read()
-                                          .replace('NDev = "none"', 'NDev = "%s"' % dev))
+    node_tlc_jobs(ctx, jobs)
 
     # generators: call sequences of the object
     def gen(name, maxlen, sim=None, depth=None, **over):
@@ -88,7 +87,7 @@ def tlc_jobs(ctx, acc):
 
     gen("gen-bfs-count", 5 if th else 4, Groups='{"g1", "g2"}', Bursts="{1, 4}", CTtl=3, Acts='{"pub", "rpc", "hb", "close"}')
     gen("gen-bfs-all", 4 if th else 3, Groups='{"g1", "g2"}', Parts="{0, 1}", Bursts="{1, 4}", CTtl=3, Acts=ALL_ACTS)
-    gen("gen-walks", 14, sim=6000 if th else 700, depth=16, Peers='{"p1", "p2", "p3"}', Topics='{"t1", "t2"}', Groups='{"g1", "g2", "g3"}',
+    gen("gen-walks", 14, sim=6000 if th else 350, depth=16, Peers='{"p1", "p2", "p3"}', Topics='{"t1", "t2"}', Groups='{"g1", "g2", "g3"}',
         Parts="{0, 1}", Bursts="{1, 2, 4}", CTtl=3, CLimT=3, CLimP=2, Acts=ALL_ACTS)
     if os.environ.get("X04_DEV_SKIP_MC"):       # development aid only (mutation trials)
         jobs = {k: v for k, v in jobs.items() if k.startswith("gen-")}
@@ -97,29 +96,32 @@ def tlc_jobs(ctx, acc):
         j = dict(jobs[name])
         module, cfg = j.pop("module"), j.pop("cfg")
         if j.get("workers") is None:
-            j["workers"] = 2 if not th else 4
-        j.setdefault("heap", "4g")
-        return name, vlib.run_tlc(ctx, FAMILY, module, cfg, name=name, **j)
+            j["workers"] = 1 if not th else 2         # four jobs at a time: 4 (quick) / 8 (thorough) TLC worker threads
+        j.setdefault("heap", "4g" if th else "3g")
+        r = vlib.run_tlc(ctx, FAMILY, module, cfg, name=name, **j)
+        if os.environ.get("X04_DEV_TIMES"):
+            ctx.log("tlc %-28s %5.1fs %d distinct" % (name, r.wall, r.distinct))
+        return name, r
 
-    order = sorted(jobs, key=lambda n: (not n.startswith("gen-"), "3groups" not in n, n))
-    with cf.ThreadPoolExecutor(max_workers=2) as ex:
+    order = sorted(jobs, key=lambda n: (not n.startswith("gen-"), not any(x in n for x in ("3groups", "2peers", "-send", "asfound", "epoch", "ideal")), n))
+    with cf.ThreadPoolExecutor(max_workers=4) as ex:
         res = dict(ex.map(one, order))
     for n, r in res.items():
         if n.startswith("gen-"):
             continue
         if "-dev-" in n:
-            prop = dict((d, p) for d, p, _ in DEVS).get(n.split("-dev-")[1]) or dict(NODE_DEVS)[n.split("-dev-")[1]]
+            prop = dict((d, p) for d, p, _ in DEVS + NODE_DEVS)[n.split("-dev-")[1]]
             vlib.require_mc_fails(ctx, r, "%s (seeded defect)" % n, prop)
             acc["mc"]["%s_fails_%s" % (n[3:], prop)] = True
-        elif n in ("mc-epoch-strict", "mc-asfound-b"):
-            prop = "P_X04_cStrict" if n == "mc-epoch-strict" else "P_X04_b"
+        elif n in ("mc-epoch-strict", "mc-asfound-b", "mc-node-asfound-g", "mc-node-asfound-k"):
+            prop = {"mc-epoch-strict": "P_X04_cStrict", "mc-asfound-b": "P_X04_b", "mc-node-asfound-g": "P_X04_g", "mc-node-asfound-k": "P_X04_k"}[n]
             vlib.require_mc_fails(ctx, r, "%s (design as found)" % n, prop)
             acc["mc"]["%s_fails_%s" % (n[3:], prop)] = True
         else:
-            vlib.require_mc_ok(ctx, r, n, allow_timeout=(n in ("mc-ideal-3groups", "mc-asfound-send")))
+            vlib.require_mc_ok(ctx, r, n, allow_timeout=(n in ("mc-ideal-3groups", "mc-asfound-send", "mc-node-ideal-2peers")))
             acc["mc"][n[3:]] = [r.distinct, r.generated]
     pools = {}
-    for n in ("gen-bfs-count", "gen-bfs-all", "gen-walks"):
+    for n in ("gen-bfs-count", "gen-bfs-all", "gen-walks", "gen-node"):
         r = res[n]
         if r.timed_out or r.violated or (n != "gen-walks" and not r.no_error):
             raise vlib.Inconclusive("generator %s failed: %s (see %s/tlc.out)" % (n, r.errors[:2], r.dir))
@@ -245,7 +247,7 @@ def obj_scenarios(ctx, pools):
     rng = random.Random(ctx.seed * 7919 + 4)
     th = ctx.thorough
     scns = obj_directed()
-    lim = {"gen-bfs-count": 30000 if th else 2500, "gen-bfs-all": 30000 if th else 2500, "gen-walks": 6000 if th else 700}
+    lim = {"gen-bfs-count": 30000 if th else 1500, "gen-bfs-all": 30000 if th else 1500, "gen-walks": 6000 if th else 350}
     exhaustive = {}
     for n in ("gen-bfs-count", "gen-bfs-all", "gen-walks"):
         pool = list(pools[n])
@@ -424,37 +426,475 @@ def report(ctx, level, viols, lookup, per_sig):
 
 
 # ------------------------------------------------------------------------------------------------ node level
-NODE_DEVS = []      # filled in below (node-level seeded defects)
+NODE_PEERS = ["p1", "p2", "p3", "p4"]
+NODE_DEVS = [("extEveryRpc", "P_X04_g", {}), ("extToOld", "P_X04_g", {}), ("sentKeep", "P_X04_g", {}),
+             ("noPenalty", "P_X04_h", {}), ("recOverwrite", "P_X04_h", {}), ("noRecDelete", "P_X04_h", {}),
+             ("dispatchPeerOnly", "P_X04_i", {"MyPartial": False}), ("closeNotWired", "P_X04_k", {})]
+NODE_INVS = ["P_X04_g", "P_X04_h", "P_X04_i", "P_X04_k"]
 
 
+def nconsts(**over):
+    c = {"NPeers": '{"p1"}', "MyPartial": True, "MyTest": True, "NAsFound": False, "NDev": '"none"', "NMaxLen": 0, "MaxMisb": 2}
+    c.update(over)
+    return c
+
+
+def node_tlc_jobs(ctx, jobs):
+    def mc(name, invs, timeout=600, **over):
+        jobs[name] = dict(module="PartialNode", cfg=vlib.cfg_text(spec="NSpec", constants=nconsts(**over), invariants=invs), timeout=timeout)
+    mc("mc-node-ideal", NODE_INVS)
+    mc("mc-node-nolocal", NODE_INVS, MyPartial=False, MyTest=False)
+    mc("mc-node-asfound", ["P_X04_h", "P_X04_i"], NAsFound=True)
+    mc("mc-node-asfound-g", ["P_X04_g"], NAsFound=True)
+    mc("mc-node-asfound-k", ["P_X04_k"], NAsFound=True)
+    for dev, prop, extra in NODE_DEVS:
+        mc("mc-node-dev-" + dev, [prop], NDev='"%s"' % dev, **extra)
+    if ctx.thorough:
+        mc("mc-node-ideal-2peers", NODE_INVS, timeout=1500, NPeers='{"p1", "p2"}', MaxMisb=1)
+    L = 6 if ctx.thorough else 5
+    jobs["gen-node"] = dict(module="PartialNode", timeout=900, heap="6g",
+                            cfg=vlib.cfg_text(spec="NGenSpec", constants=nconsts(NAsFound=True, NMaxLen=L, MaxMisb=1), invariants=["NEmit"]))
+
+
+def EXT(partial=True, test=False):
+    return {"present": True, "partial": partial, "test": test}
+
+
+def SUB(t="t1", req=None, sup=None, sub=True):
+    d = {"t": t, "sub": sub}
+    if req is not None:
+        d["req"] = req
+    if sup is not None:
+        d["sup"] = sup
+    return d
+
+
+def PART(g, meta=(0,), t="t1", has_msg=False, has_meta=True):
+    return {"present": True, "t": t, "g": g, "hasMeta": has_meta, "meta": list(meta), "hasMsg": has_msg}
+
+
+def NP(p, proto="v13", d="in"):
+    return {"a": "peer", "p": p, "proto": proto, "dir": d, "subs": []}
+
+
+def X(p, ext=None, subs=None, part=None, testx=False, graft=None):
+    d = {"a": "x", "p": p}
+    if ext is not None:
+        d["ext"] = ext
+    if subs:
+        d["subs"] = subs
+    if part is not None:
+        d["part"] = part
+    if testx:
+        d["testx"] = True
+    if graft:
+        d["graft"] = list(graft)
+    return d
+
+
+def PPUB(g, parts=(0, 1), t="t1"):
+    return {"a": "ppub", "t": t, "g": g, "parts": list(parts)}
+
+
+SUBSCRIBE1, SUBSCRIBE2 = {"a": "subscribe", "t": "t1"}, {"a": "subscribe", "t": "t2"}
+NODE_CFG = {"partial": True, "test": False, "flood": False, "ttl": 3, "limT": 255, "limP": 8, "eager": True, "regossip": True, "sloppy": False,
+            "topics": {"t1": "req"}, "npeers": 4}
+
+
+def std_peers(p1=True):
+    """p1: v1.3, extension, requests (and so supports); p2: v1.3, extension, supports only; p3: v1.2, nothing; all three in the mesh of t1.
+    p4: v1.3, extension, requests, NOT in the mesh (a gossip target)."""
+    acts = [SUBSCRIBE1]
+    if p1:
+        acts += [NP("p1"), X("p1", ext=EXT(), subs=[SUB(req=True, sup=True)]), X("p1", graft=["t1"])]
+    acts += [NP("p2", d="out"), X("p2", ext=EXT(), subs=[SUB(req=False, sup=True)]), X("p2", graft=["t1"]),
+             NP("p3", "v12"), X("p3", subs=[SUB()]), X("p3", graft=["t1"])]
+    return acts
+
+
+P4 = [NP("p4"), X("p4", ext=EXT(), subs=[SUB(req=True)])]
+
+
+def msg(p, m, t="t1", size=0):
+    d = {"a": "msg", "p": p, "t": t, "m": m}
+    if size:
+        d["size"] = size
+    return d
+
+
+def node_directed():
+    D = []
+
+    def add(name, cfg, acts):
+        c = dict(NODE_CFG)
+        c.update(cfg)
+        D.append({"src": "directed:" + name, "cfg": c, "acts": acts})
+
+    # the handshake in both directions, every protocol, misbehaviour, streams closing and re-opening
+    add("handshake", {"test": True}, [
+        SUBSCRIBE1, NP("p1"), X("p1", ext=EXT(True, True), subs=[SUB(req=True)]), NP("p2", d="out"), X("p2", subs=[SUB()]),
+        NP("p3", "v12"), X("p3", ext=EXT(True, True), subs=[SUB(req=True)]), NP("p4", "v11", "out"), X("p4", subs=[SUB()]),
+        X("p1", ext=EXT(True, True)), X("p1", ext=EXT(False, False)), X("p2", ext=EXT(True, False)), X("p1", testx=True), X("p2", testx=True), X("p3", testx=True),
+        {"a": "closeOut", "p": "p1"}, {"a": "openOut", "p": "p1"}, X("p1", ext=EXT(False, True)), X("p1", testx=True),
+        {"a": "resetOut", "p": "p2"}, {"a": "openOut", "p": "p2"}, X("p2", ext=EXT(True, True), subs=[SUB(req=True)]), X("p2", ext=EXT(True, True)),
+        {"a": "resetIn", "p": "p1"}, HB, HB, X("p1", testx=True),
+        {"a": "down", "p": "p1"}, HB, NP("p1"), X("p1", subs=[SUB()]), X("p1", ext=EXT()), {"a": "down", "p": "p3"}, {"a": "down", "p": "p2"}, HB])
+    # a node without any extension: nothing advertised, nothing dispatched, no crash, PublishPartial fails cleanly
+    add("nolocal", {"partial": False, "topics": {}}, [
+        SUBSCRIBE1, NP("p1"), X("p1", ext=EXT(True, True), subs=[SUB(req=True, sup=True)], part=PART("g1")), X("p1", part=PART("g2"), testx=True),
+        X("p1", graft=["t1"]), NP("p2", "v12"), X("p2", subs=[SUB(req=True)], part=PART("g1")), PPUB("g1"), {"a": "publish", "t": "t1", "m": "m1"}, X("p1", ext=EXT()),
+        HB, {"a": "down", "p": "p1"}, HB])
+    # only the test extension
+    add("testonly", {"partial": False, "test": True, "topics": {}}, [
+        SUBSCRIBE1, NP("p1"), X("p1", ext=EXT(True, True), part=PART("g1")), X("p1", testx=True), NP("p2", d="out"), X("p2", ext=EXT(True, False), testx=True),
+        X("p2", testx=True), {"a": "resetIn", "p": "p1"}, HB, HB, {"a": "down", "p": "p1"}, HB])
+    # the node requests partial messages: publish, merge, missing parts, gossip, suppression, IDONTWANT, expiry
+    add("request", {}, std_peers() + P4 + [
+        HB, PPUB("g1", (0, 1)), X("p1", part=PART("g1", (0,))), X("p2", part=PART("g1", (0, 1, 2))), PPUB("g1", (0, 1, 2)), PPUB("g1", (0, 1, 2)),
+        {"a": "publish", "t": "t1", "m": "m1"}, msg("p3", "m2"), msg("p3", "m3", size=100), msg("p2", "m4", size=100),
+        HB, X("p4", part=PART("g1", (0,))), X("p4", part=PART("g2", (1,))), X("p3", part=PART("g3")), PPUB("g2", (2,)), HB, HB, HB, HB, HB, PPUB("g3", (0,)), HB])
+    # the node only supports sending: requesters are served partially, supporters in full; IDONTWANT flows
+    add("support", {"topics": {"t1": "sup"}}, std_peers() + P4 + [
+        HB, PPUB("g1", (0, 1)), {"a": "publish", "t": "t1", "m": "m1"}, msg("p3", "m2", size=100), HB, X("p1", part=PART("g1", (0,))), PPUB("g1", (0, 1, 2)), HB, HB, HB, HB, HB])
+    # the node does not support partial messages on the topic: requesters get everything in full, MeshPeers is empty
+    add("none", {"topics": {}}, std_peers() + P4 + [
+        HB, PPUB("g1", (0, 1)), {"a": "publish", "t": "t1", "m": "m1"}, msg("p3", "m2"), X("p1", part=PART("g2")), HB, HB, HB, HB, HB])
+    # flood publishing; two topics with different modes; unsubscribe and re-subscribe with other flags
+    add("flood", {"flood": True, "topics": {"t1": "req", "t2": "sup"}}, [SUBSCRIBE2] + std_peers() + P4 + [
+        X("p1", subs=[SUB("t2", req=True)]), X("p2", subs=[SUB("t2", req=True)]), X("p3", subs=[SUB("t2")]), X("p1", graft=["t2"]), X("p3", graft=["t2"]), HB,
+        {"a": "publish", "t": "t1", "m": "m1"}, {"a": "publish", "t": "t2", "m": "m2"}, PPUB("g1", (0,), "t2"), PPUB("g1", (1,), "t1"),
+        X("p1", subs=[SUB("t1", sub=False)]), {"a": "publish", "t": "t1", "m": "m3"}, X("p1", subs=[SUB("t1")]), {"a": "publish", "t": "t1", "m": "m4"},
+        X("p1", subs=[SUB("t1", req=True)]), {"a": "publish", "t": "t1", "m": "m5"}, HB, HB])
+    # finding X04-F5: a peer requests partial messages in its subscription without having advertised the extension
+    add("f5", {}, std_peers(p1=False) + [
+        NP("p1"), X("p1", ext=EXT(False), subs=[SUB(req=True)]), X("p1", graft=["t1"]), NP("p4"), X("p4", subs=[SUB(req=True)]), HB,
+        PPUB("g1", (0, 1)), {"a": "publish", "t": "t1", "m": "m1"}, HB, {"a": "down", "p": "p1"}, HB, HB, HB, HB, HB])
+    # finding X04-F3: the peer's own stream closes first / outbound first (clean) / re-opened outbound stream
+    add("f3", {"test": True}, std_peers() + [
+        HB, PPUB("g1", (0, 1)), X("p1", part=PART("g2")), {"a": "closeOut", "p": "p1"}, {"a": "down", "p": "p1"}, HB,
+        X("p2", part=PART("g3")), {"a": "resetIn", "p": "p2"}, HB, HB, PPUB("g1", (0, 1, 2)), {"a": "down", "p": "p2"}, HB, HB, HB, HB, HB])
+    # a partial RPC handled while the node has no outbound stream to the peer (its re-open is held back)
+    add("no-outbound", {}, std_peers() + [
+        HB, {"a": "hold", "p": "p1"}, {"a": "resetIn", "p": "p1"}, X("p1", part=PART("g1")), {"a": "down", "p": "p1"}, {"a": "release", "p": "p1"},
+        HB, HB, HB, HB, HB])
+    # the peer-initiated limits in the node
+    add("limits", {"limT": 2, "limP": 1}, std_peers() + [
+        HB, X("p1", part=PART("g1")), X("p1", part=PART("g2")), X("p2", part=PART("g2")), X("p2", part=PART("g3")), X("p1", part=PART("g1", (1,))),
+        PPUB("g1"), X("p1", part=PART("g3")), HB, HB, HB, HB, X("p2", part=PART("g3"))])
+    # reconnect: everything starts from zero
+    add("reconnect", {}, std_peers() + [
+        HB, PPUB("g1", (0, 1)), X("p1", part=PART("g1", (0, 1))), {"a": "down", "p": "p1"}, HB, NP("p1"), X("p1", ext=EXT(), subs=[SUB(req=True)]), X("p1", graft=["t1"]),
+        HB, PPUB("g1", (0, 1)), {"a": "publish", "t": "t1", "m": "m1"}, HB])
+    return D
+
+
+def node_from_history(evs, k):
+    """One peer's handshake history (NGenSpec) inside a standard environment: p2 / p3 keep the mesh populated, the application
+    publishes before and after, the peer leaves at the end."""
+    acts = std_peers(p1=False) + [HB, PPUB("g2", (0,))]
+    alt = 0
+    for e in evs:
+        a = e["a"]
+        if a == "connect":
+            acts.append(NP("p1", e["proto"], ["in", "out"][(k + alt) % 2]))
+            alt += 1
+        elif a == "recv":
+            subs = [SUB("t1", req=e["req"], sup=e["req"])]
+            acts.append(X("p1", ext=e["ext"] if e["ext"]["present"] else None, subs=subs, part=PART("g1") if e["part"] else None, graft=["t1"]))
+        elif a == "indown":
+            acts.append({"a": ["closeOut", "resetOut"][(k + alt) % 2], "p": "p1"})
+            alt += 1
+        elif a == "inup":
+            acts.append({"a": "openOut", "p": "p1"})
+        elif a == "outdown":
+            acts.append({"a": "resetIn", "p": "p1"})
+        elif a == "outup":
+            acts += [dict(HB), dict(HB)]
+        elif a == "ppub":
+            acts.append(PPUB("g1", (0, 1)))
+        elif a == "down":
+            acts.append({"a": "down", "p": "p1"})
+        elif a == "down-infirst":
+            acts += [{"a": "closeOut", "p": "p1"}, {"a": "down", "p": "p1"}]
+        else:
+            raise vlib.Inconclusive("unknown handshake event %r" % a)
+    acts += [PPUB("g2", (0, 1)), {"a": "publish", "t": "t1", "m": "mz"}, dict(HB), {"a": "down", "p": "p1"}, dict(HB), dict(HB)]
+    cfg = dict(NODE_CFG, test=bool(k % 3 == 0), topics={"t1": ["req", "sup"][k % 2]})
+    return {"src": "gen-node", "cfg": cfg, "acts": acts}
+
+
+def node_scenarios(ctx, pool):
+    rng = random.Random(ctx.seed * 104729 + 4)
+    scns = node_directed()
+    lim = 1500 if ctx.thorough else 110
+    pool = list(pool)
+    exhaustive = len(pool) <= lim
+    if not exhaustive:
+        rng.shuffle(pool)
+        pool = pool[:lim]
+    for i, evs in enumerate(pool):
+        scns.append(node_from_history(evs, i + ctx.seed))
+    for i, s in enumerate(scns):
+        s["id"] = i
+    return scns, exhaustive
+
+
+NOEXT = {"present": False, "partial": False, "test": False}
+NOPART = {"present": False, "t": "", "g": "", "hasMeta": False, "meta": [], "hasMsg": False}
+NODE_ACTS = {"peer", "x", "msg", "publish", "ppub", "subscribe", "cancel", "hb", "down", "closeOut", "resetOut", "openOut", "resetIn", "hold", "release", "end"}
+
+
+def msgparts(s):
+    s = s[len("parts:"):] if s.startswith("parts:") else ""
+    return [int(x) for x in s.split(",") if x != ""]
+
+
+def pairs(m):
+    return [[t, p] for t, l in sorted((m or {}).items()) for p in l]
+
+
+def snap_node(row):
+    st = row["st"]
+    return {"mesh": pairs(st.get("mesh")), "fanout": pairs(st.get("fanout")), "tpeers": pairs(st.get("topics")),
+            "joined": sorted((st.get("myTopics") or {}).keys()), "pen": [{"p": p, "n": n} for p, n in sorted((st.get("pen") or {}).items())]}
+
+
+def slim_node(row, prev):
+    a = row["act"]
+    if a["a"] == "reset":
+        c = a["cfg"]
+        return {"e": "reset", "scn": row["scn"], "i": 0, "a": "reset", "partial": c["partial"], "test": c["test"], "flood": c["flood"], "ttl": c["ttl"],
+                "limT": c["limT"], "limP": c["limP"], "eager": c["eager"], "regossip": c["regossip"], "sloppy": c["sloppy"],
+                "modes": [{"t": t, "mode": m} for t, m in sorted((c.get("topics") or {}).items())]}
+    if a["a"] not in NODE_ACTS:
+        raise vlib.Inconclusive("node action outside the alphabet of the trace specification: %r" % a["a"])
+    x, st, cur, pre = row["x"], row["st"], snap_node(row), snap_node(prev)
+    sends = a["a"] in ("x", "msg") and not a.get("sendErr")
+    xe = dict(NOEXT)
+    xe.update(a.get("ext") or {})
+    xp = dict(NOPART)
+    xp.update(a.get("part") or {})
+    xs = [{"t": s["t"], "sub": bool(s.get("sub")), "req": bool(s.get("req")), "sup": bool(s.get("sup"))} for s in (a.get("subs") or [])] if a["a"] == "x" else []
+    frames = []
+    for p, frs in sorted(row["out"].items()):
+        if frs and p not in NODE_PEERS:
+            raise vlib.Inconclusive("peer outside the universe of the trace specification: %r" % p)
+        for n, fr in enumerate(frs):
+            pt = fr["partial"]
+            frames.append({"p": p, "n": n + 1, "ext": fr["ext"],
+                           "part": {"present": pt["present"], "t": pt["t"], "g": pt["g"], "hasMsg": pt["hasMsg"], "msg": msgparts(pt["msg"]),
+                                    "hasMeta": pt["hasMeta"], "meta": pt["meta"]},
+                           "msgs": [{"m": m["m"], "t": m["topic"]} for m in fr["msgs"]], "ihave": [h["topic"] for h in fr["ihave"]],
+                           "idw": sum(len(l) for l in fr["idontwant"]), "testx": fr["hasTestExt"]})
+    return {"e": "step", "scn": row["scn"], "i": row["i"], "a": a["a"], "p": a.get("p", ""), "t": a.get("t", ""), "g": a.get("g", ""),
+            "parts": a.get("parts", []), "m": a.get("m", ""), "sends": sends, "xext": xe, "xsubs": xs, "xpart": xp, "xtest": bool(a.get("testx")),
+            "served": a["a"] in ("publish", "msg"),
+            "evo": [{"k": e["k"], "p": e["p"], "proto": e.get("proto", "")} for e in row["ev"] if e["k"] in ("Up", "Down")],
+            "frames": frames, "hb": row["hb"],
+            "mesh": cur["mesh"], "fanout": cur["fanout"], "tpeers": cur["tpeers"], "joined": cur["joined"], "pen": cur["pen"],
+            "premesh": pre["mesh"], "prefanout": pre["fanout"], "pretpeers": pre["tpeers"], "prejoined": pre["joined"], "prepen": pre["pen"],
+            "recs": x["ext"]["peer"], "sentx": x["ext"]["sent"],
+            "flags": [{"t": t, "p": p, "req": f["req"], "sup": f["sup"]} for t, m in sorted((st.get("partial") or {}).items()) for p, f in sorted(m.items())],
+            "groups": x["pm"]["groups"], "empty": x["pm"]["empty"], "ctr": x["pm"]["ctr"], "cb": x["cb"], "testrecv": x["testrecv"],
+            "ret": {"k": x["ret"], "ps": []}}
+
+
+def node_trace_cfg():
+    c = consts(Peers=sset(NODE_PEERS), Topics=sset(OBJ_TOPICS), Groups=sset(OBJ_GROUPS), Parts="{0, 1, 2, 3, 4, 5, 6, 7}",
+               CTtl=3, CLimT=255, CLimP=8, ResetOnClose=True, StaleDec=True, Acts="{}")
+    return vlib.cfg_text(spec="NodeTraceSpec", constants=c, constraint="HW", postcondition="Accepted")
+
+
+def replay_node(ctx, scns):
+    n = 1 if len(scns) < 40 else (4 if ctx.thorough else 3)
+    parts = [scns[k::n] for k in range(n)]
+
+    def one(k):
+        inp, outp, mark = [os.path.join(ctx.work, "node%d.%s" % (k, x)) for x in ("scn.ndjson", "trace.ndjson", "marker")]
+        vlib.write_ndjson(inp, parts[k])
+        by_id = {s["id"]: s for s in parts[k]}
+        skip = []
+        for attempt in range(4):
+            todo = [s for s in parts[k] if s["id"] not in skip]
+            vlib.write_ndjson(inp, todo)
+            outk = outp if not attempt else outp + ".r%d" % attempt
+            r = vlib.run_go(ctx, "./drivers/x04/", "^TestX04Node$", env={"VERIF_IN": inp, "VERIF_OUT": outk, "VERIF_MARKER": mark},
+                            timeout=1500 if ctx.thorough else 600, name="node%d%s" % (k, "" if not attempt else "-r%d" % attempt))
+            if r["rc"] == 0:
+                return [outp] + [outp + ".r%d" % i for i in range(1, attempt + 1)]
+            sid = open(mark).read().strip() if os.path.exists(mark) else ""
+            if not sid.isdigit():
+                raise vlib.Inconclusive("node driver died before its first scenario (see %s)" % r["log"])
+            # a dead driver is a violation only if the scenario, replayed alone, panics again in library code
+            inp1, out1 = os.path.join(ctx.work, "node-crash-%s.scn.ndjson" % sid), os.path.join(ctx.work, "node-crash-%s.trace.ndjson" % sid)
+            vlib.write_ndjson(inp1, [by_id[int(sid)]])
+            r1 = vlib.run_go(ctx, "./drivers/x04/", "^TestX04Node$", env={"VERIF_IN": inp1, "VERIF_OUT": out1}, timeout=300, name="node-crash-%s" % sid)
+            why = lib_panic(r1["out"]) if r1["rc"] != 0 else None
+            if why:
+                scn = by_id[int(sid)]
+                vlib.add_violation(ctx, "P_X04_i", {"level": "node", "kind": "panic", "where": why[:80]},
+                                   "the node panics: %s (scenario %s, %s)" % (why, scn["id"], scn["src"]), {"level": "node", "scenario": scn})
+            elif r1["rc"] != 0:
+                raise vlib.Inconclusive("node driver fails on scenario %s (see %s)" % (sid, r1["log"]))
+            skip.append(int(sid))
+        raise vlib.Inconclusive("node driver keeps dying (see %s)" % r["log"])
+
+    with cf.ThreadPoolExecutor(max_workers=n) as ex:
+        paths = [p for l in ex.map(one, range(n)) for p in l]
+    by_id = {s["id"]: s for s in scns}
+    runs, seen = [], set()
+    for path in paths:
+        if not os.path.exists(path):
+            continue
+        cur = None
+        for row in vlib.read_ndjson(path):
+            a = row["act"]["a"]
+            if a == "reset":
+                cur = [row]
+            elif cur is not None:
+                if a == "end":
+                    if row["scn"] not in seen:
+                        seen.add(row["scn"])
+                        runs.append((by_id[row["scn"]], cur))
+                    cur = None
+                else:
+                    cur.append(row)
+    return runs
+
+
+def validate_node(ctx, runs, acc):
+    chunk = 60
+    jobs = []
+    for ci in range(0, len(runs), chunk):
+        path = os.path.join(ctx.work, "tv-node-%d.ndjson" % ci)
+        with open(path, "w") as f:
+            for gi, (scn, lines) in enumerate(runs[ci:ci + chunk]):
+                prev = None
+                for row in lines:
+                    s = slim_node(row, prev or row)
+                    s["scn"] = ci + gi
+                    f.write(json.dumps(s, separators=(",", ":")) + "\n")
+                    prev = row
+        jobs.append(("tv-node-%d" % ci, path))
+    viols, steps, drifts = [], [], []
+    cfg = node_trace_cfg()
+
+    def one(j):
+        res = vlib.run_tlc(ctx, FAMILY, "PartialNodeTrace", cfg, mode="trace", files={"trace.ndjson": j[1]}, timeout=1500, name=j[0], heap="4g")
+        if res.hw is None or res.hw[0] < res.hw[1] or res.violated or res.timed_out:
+            raise vlib.Inconclusive("trace validation did not consume its input (hw=%s errors=%s, see %s/tlc.out)" % (res.hw, res.errors[:2], res.dir))
+        v, s, d = res.printed("VIOL"), res.printed("NSTEP"), res.printed("DRIFT")
+        if len(v) != len(res.printed_raw("VIOL")) or len(s) != len(res.printed_raw("NSTEP")):
+            raise vlib.Inconclusive("unparsable VIOL/NSTEP output in %s/tlc.out" % res.dir)
+        return v, s, d, res.distinct
+    with cf.ThreadPoolExecutor(max_workers=4) as ex:
+        for v, s, d, st in ex.map(one, jobs):
+            viols += v
+            steps += s
+            drifts += d
+            acc["states"] += st
+    return viols, steps, drifts
+
+
+NODE_OBLIGATIONS = ["hello-with-ext", "hello-v13-no-local-ext", "hello-old-protocol", "outbound-reopened-record-kept", "first-rpc-advertises-partial",
+                    "first-rpc-without-ext", "first-rpc-advertises-test", "first-rpc-old-protocol", "second-ext-message", "second-ext-message-differs",
+                    "inbound-closed-record-dropped", "peer-reconnected", "partial-rpc-dispatched", "partial-rpc-from-peer-without-ext",
+                    "partial-rpc-without-local-ext", "partial-rpc-in-first-rpc", "partial-rpc-over-limit", "test-rpc-dispatched", "test-rpc-ignored", "test-rpc-sent",
+                    "publish-partial-sent", "publish-partial-not-enabled", "publish-partial-with-message", "publish-partial-metadata-only",
+                    "mesh-peer-excluded-from-partial", "partial-to-peer-without-ext-seen", "supporter-gets-metadata", "gossip-wired", "gossip-rpc-sent",
+                    "expiry-wired", "ttl-countdown-wired", "close-wired", "close-leak-seen", "state-without-outbound-stream-seen",
+                    "full-message-suppressed", "full-message-sent", "requester-served-because-node-does-not-support", "ihave-sent", "idontwant-sent",
+                    "idontwant-suppressed"]
+
+
+# ------------------------------------------------------------------------------------------------ the check
 def run(ctx):
     acc = {"states": 0, "transitions": 0, "mc": {}, "gen": {}}
+    if ctx.replay:
+        payload = json.load(open(ctx.replay))
+        rp = payload.get("replay") or {}
+        scn = rp.get("scenario")
+        if not scn:
+            raise vlib.Inconclusive("replay file has no scenario")
+        scn["id"] = 0
+        per_sig = {}
+        if rp.get("level") == "node":
+            runs = replay_node(ctx, [scn])
+            viols, steps, _ = validate_node(ctx, runs, acc)
+            report(ctx, "node", viols, lambda i: runs[i], per_sig)
+        else:
+            runs = replay_obj(ctx, [dict(scn, src="directed:replay")], reps_directed=3)
+            viols, steps = validate_obj(ctx, runs, acc)
+            report(ctx, "obj", viols, lambda i: runs[i], per_sig)
+        return vlib.finish(ctx, LEVEL, {"states": max(acc["states"], 1), "transitions": max(acc["states"], 1), "traces_validated_against_impl": len(runs),
+                                        "samples": [{"replayed": ctx.replay, "steps_judged": len(steps)}], "evaluations": len(steps),
+                                        "distinct_nontrivial": len(steps), "rule": "single replayed scenario"}, ["replay of one scenario"])
+
     pools = tlc_jobs(ctx, acc)
     scns, exhaustive = obj_scenarios(ctx, pools)
-    ctx.log("replaying %d call sequences on the real extension object" % len(scns))
-    runs = replay_obj(ctx, scns)
-    nlines = sum(len(l) for _, l in runs)
-    ctx.log("recorded %d calls of %d runs; validating with TLC" % (nlines, len(runs)))
-    viols, steps = validate_obj(ctx, runs, acc)
+    nscns, nexh = node_scenarios(ctx, pools["gen-node"])
+    exhaustive["gen-node"] = nexh
+    ctx.log("replaying %d call sequences on the real extension object and %d scenarios on the real node" % (len(scns), len(nscns)))
+    with cf.ThreadPoolExecutor(max_workers=2) as ex:
+        f_obj, f_node = ex.submit(replay_obj, ctx, scns), ex.submit(replay_node, ctx, nscns)
+        runs, nruns = f_obj.result(), f_node.result()
+    nlines, nnlines = sum(len(l) for _, l in runs), sum(len(l) for _, l in nruns)
+    ctx.log("recorded %d calls of %d object runs and %d steps of %d node scenarios; validating with TLC" % (nlines, len(runs), nnlines, len(nruns)))
+    with cf.ThreadPoolExecutor(max_workers=2) as ex:
+        f_obj, f_node = ex.submit(validate_obj, ctx, runs, acc), ex.submit(validate_node, ctx, nruns, acc)
+        viols, steps = f_obj.result()
+        nviols, nsteps, drifts = f_node.result()
     per_sig = {}
     report(ctx, "obj", viols, lambda i: runs[i], per_sig)
+    report(ctx, "node", nviols, lambda i: nruns[i], per_sig)
     hits = {}
-    for s in steps:
+    for s in steps + nsteps:
         for t in s["tags"]:
             hits[t] = hits.get(t, 0) + 1
+    drift_kinds = {}
+    for d in drifts:
+        drift_kinds[d["kind"]] = drift_kinds.get(d["kind"], 0) + 1
     known = vlib.load_findings(ctx.pid)
     new = [v for v in ctx.violations if not any(vlib.sig_matches(f, v) for f in known)]
+    done_ids = {s["id"] for s, _ in nruns}
+    missing = [s["id"] for s in nscns if s["id"] not in done_ids]
     if not new:
-        unmet = [k for k in OBJ_OBLIGATIONS if not hits.get(k)]
+        if missing:
+            raise vlib.Inconclusive("%d node scenarios were not replayed to the end (e.g. %s)" % (len(missing), missing[:5]))
+        if drift_kinds:
+            raise vlib.Inconclusive("node steps left the envelope in which the expectation is determined: %s" % drift_kinds)
+        unmet = [k for k in OBJ_OBLIGATIONS + NODE_OBLIGATIONS if not hits.get(k)]
         if unmet:
-            raise vlib.Inconclusive("coverage obligations not met on real calls: %s" % unmet)
+            raise vlib.Inconclusive("coverage obligations not met on real steps: %s" % unmet)
+    elif missing or drift_kinds:
+        ctx.notes.append("%d node scenarios not replayed to the end, drift %s; the verdict rests on the others" % (len(missing), drift_kinds))
     nontrivial = {json.dumps([s["cfg"], s["acts"]], sort_keys=True) for s in scns if sum(1 for a in s["acts"] if a["a"] in ("pub", "rpc", "close", "gossip")) >= 2}
-    cov = {"states": acc["states"], "transitions": acc["transitions"] + nlines, "traces_validated_against_impl": len(runs),
-           "samples": [{"scenario": runs[0][0], "trace": runs[0][1][:6]}] if runs else [],
-           "evaluations": len(steps), "distinct_nontrivial": len(nontrivial),
-           "rule": "one evaluation = one recorded call judged by PartialTrace (groups, counters, decision, RPCs, callbacks)",
-           "exhaustive": all(exhaustive.values()), "exhaustive_note": "BFS pools replayed completely: %s" % exhaustive,
-           "obligations": {k: hits.get(k, 0) for k in OBJ_OBLIGATIONS},
+    nnontrivial = {json.dumps([s["cfg"], s["acts"]], sort_keys=True) for s, _ in nruns}
+    samples = []
+    if runs:
+        samples.append({"level": "obj", "scenario": runs[0][0], "trace": runs[0][1][:5]})
+    if nruns:
+        s0, l0 = nruns[0]
+        samples.append({"level": "node", "scenario": {"src": s0["src"], "cfg": s0["cfg"], "acts": s0["acts"][:12]},
+                        "trace": [{k: v for k, v in r.items() if k in ("i", "t", "act", "hb", "out", "x")} for r in l0[1:5]]})
+    cov = {"states": acc["states"], "transitions": acc["transitions"] + nlines + nnlines, "traces_validated_against_impl": len(runs) + len(nruns),
+           "samples": samples, "evaluations": len(steps) + len(nsteps), "distinct_nontrivial": len(nontrivial) + len(nnontrivial),
+           "rule": "one evaluation = one recorded call on the real extension object judged by PartialTrace (groups, counters, limit decision, RPCs, callbacks) or one step "
+                   "of the real node judged by PartialNodeTrace (frames, handshake records, penalty, dispatch, suppression, the extension's bookkeeping); a scenario is "
+                   "non-trivial with at least two of publish / RPC / close / gossip (object) and always (node: every scenario carries a handshake); distinct by (configuration, actions)",
+           "exhaustive": all(exhaustive.values()), "exhaustive_note": "generator pools replayed completely: %s (otherwise a seeded sample)" % exhaustive,
+           "obligations": {k: hits.get(k, 0) for k in OBJ_OBLIGATIONS + NODE_OBLIGATIONS},
            "violating_instances": {"%s %s" % k: n for k, n in sorted(per_sig.items())},
-           "mc": acc["mc"], "gen": acc["gen"]}
-    return vlib.finish(ctx, LEVEL, cov, ["(object level only: work in progress)"])
+           "object": {"scenarios": len(scns), "runs": len(runs), "calls": nlines}, "node": {"scenarios": len(nruns), "steps": nnlines},
+           "mc": acc["mc"], "gen": acc["gen"], "model_drift": drift_kinds}
+    return vlib.finish(ctx, LEVEL, cov, [
+        "object level: the extension object is driven through its exported methods by one goroutine, its bookkeeping is read with VerifX04Snapshot / VerifPeerStates "
+        "(build tag verif); the application around it is the driver's (parts as bitmaps merged with the real partialmessages/bitmap.Merge, eager push, metadata when changed)",
+        "node level: one real gossipsub node (harness/world, world.SmallParams, heartbeat 1 s, peer scoring with BehaviourPenaltyWeight 0 so that the misbehaviour report is "
+        "visible as the behaviour penalty and changes no score) with at most four wire-level fake peers; stimuli keep 50/150 ms away from heartbeat instants",
+        "the handshake monitors are built from what the scenario made the fake peers send and from the Up/Down tracer events; mesh, fanout, topic peers and joined topics "
+        "are read from the node's snapshot (they are inputs of X04.j/k, not their subject)",
+        "gossip targets are determined only while a topic has at most Dlazy = 2 non-mesh candidates (otherwise the run is inconclusive, never a verdict)",
+        "for an RPC that names a group without state the reference follows the decision the code took and X04.c judges the decision against the groups that really count; "
+        "where a listed finding explains a deviation (as-found-...) the reference follows the node so that later steps are still judged",
+        "findings X04-F1..F5 are reported as known findings; every other failure of the same predicates is a violation"])
